@@ -558,9 +558,42 @@ def make_cli_spec(rng, ploidy=None, deep=False, adjacent=False):
     if deep:
         return dict(k=2, nsamples=1, nvars=5, seed=rng.randrange(1 << 30), sens=4, prephase=False, reference=False,
                     deep=True, nreads=720)
-    return dict(k=k, nsamples=rng.choice([1, 2, 2]), nvars=rng.randint(8, 16), seed=rng.randrange(1 << 30),
-                sens=rng.randrange(6), prephase=rng.random() < 0.4, reference=rng.random() < 0.3, deep=False,
-                nreads=rng.randint(14, 30) * k, only_first_sample=rng.random() < 0.4)
+    spec = dict(k=k, nsamples=rng.choice([1, 2, 2]), nvars=rng.choice([1, 2, 3] + list(range(8, 17)) * 2),
+                seed=rng.randrange(1 << 30), sens=rng.randrange(6), prephase=rng.random() < 0.4,
+                reference=rng.random() < 0.3, deep=False, nreads=rng.randint(14, 30) * k,
+                only_first_sample=rng.random() < 0.4)
+    spec.update(draw_cli_options(rng))
+    return spec
+
+
+SAMPLE_NAMES = [["S1", "S2"], ["b", "a"], ["sample10", "sample2"], ["NA1x", "NA1"], ["mother", "child"]]
+CHROM_NAMES = [["chrA", "chrB"], ["10", "2"], ["chrB", "chrA"]]
+
+
+def draw_cli_options(rng):
+    """every option of `whatshap polyphase` that touches the phased output, and the shapes of the input files"""
+    return dict(
+        threads=rng.choice([1, 1, 1, 2, 3]),
+        tag=rng.choice(["PS", "PS", "PS", "HP"]),
+        haploid_sets=rng.random() < 0.2,
+        nchrom=rng.choice([1, 1, 2]),
+        one_chromosome=rng.random() < 0.35,          # --chromosome <first>: the other chromosome passes through
+        ignore_rg=rng.random() < 0.3,                # applied only with a single (target) sample
+        drop_rg=rng.random() < 0.5,                  # with --ignore-read-groups: BAM without RG header/tags
+        only_snvs=rng.random() < 0.2,
+        no_mav=rng.random() < 0.2,
+        min_overlap=rng.choice([2, 2, 2, 1, 3, 4]),
+        mapq=rng.choice([None, None, 0, 30]),
+        lowq=rng.random() < 0.5,                     # a fifth of the reads with mapping quality 5 or 25
+        nbams=rng.choice([1, 1, 2]),
+        multi_rg=rng.random() < 0.4,                 # two read groups per sample
+        names=rng.randrange(len(SAMPLE_NAMES)),
+        chrom_names=rng.randrange(len(CHROM_NAMES)),
+        gz_in=rng.random() < 0.2,
+        out_mode=rng.choice(["file", "file", "file", "gz", "stdout"]),
+        monomorphic=rng.random() < 0.3,              # records without ALT between the variants
+        hom_prephased=rng.random() < 0.5,            # with pre-phasing: homozygous calls written a|a|a with PS, too
+    )
 
 
 def build_cli_inputs(spec, wd):
@@ -610,8 +643,11 @@ def build_cli_inputs(spec, wd):
         planted = {("S1", "chrA", sc.variants["chrA"][2].pos + 1)}
         phased = None
     else:
-        sc = synth.make_poly_scenario(rng, k, nsamples=spec["nsamples"], nvars=spec["nvars"], nchrom=rng.choice([1, 1, 2]),
-                                      kinds=("snv", "snv", "ins", "del"))
+        nchrom = spec.get("nchrom") or rng.choice([1, 1, 2])
+        sc = synth.make_poly_scenario(rng, k, nsamples=spec["nsamples"], nvars=spec["nvars"], nchrom=nchrom,
+                                      kinds=("snv", "snv", "ins", "del"),
+                                      sample_names=SAMPLE_NAMES[spec.get("names", 0)][:spec["nsamples"]],
+                                      chrom_names=CHROM_NAMES[spec.get("chrom_names", 0)][:nchrom])
         override, planted, reads = {}, set(), []
         for s in sc.samples:
             for c in sc.chroms:
@@ -643,6 +679,10 @@ def build_cli_inputs(spec, wd):
                 hot = [(0, L // 3, 3.0), (L // 3, 2 * L // 3, 0.4), (2 * L // 3, L, 2.0)] if rng.random() < 0.5 else None
                 nr = spec["nreads"] if not (len(sc.samples) > 1 and s == sc.samples[-1] and rng.random() < 0.15) else 0
                 reads += synth.simulate_poly_reads(rng, sc, s, c, nr, hap_weights=weights, hotspots=hot)
+        if spec.get("lowq"):
+            for r in reads:
+                if rng.random() < 0.2:
+                    r["mapq"] = rng.choice([5, 25])
         phased = None
         if spec["prephase"]:
             phased = {}
@@ -657,7 +697,8 @@ def build_cli_inputs(spec, wd):
                         ps = sc.variants[c][i].pos + 1
                         for q in range(i, j):
                             col = sc.haps[s][c][q]
-                            if len(set(col)) > 1 and (s, c, q) not in override and rng.random() < 0.8:
+                            het_ = len(set(col)) > 1 or spec.get("hom_prephased")
+                            if het_ and (s, c, q) not in override and rng.random() < 0.8:
                                 d[q] = ps
                         i = j
                     phased[s][c] = d
@@ -669,16 +710,47 @@ def build_cli_inputs(spec, wd):
     # info header for NS
     txt = open(vcf).read().replace("##FORMAT=<ID=GT", '##INFO=<ID=NS,Number=1,Type=Integer,Description="n">\n##FORMAT=<ID=GT', 1)
     open(vcf, "w").write(txt)
+    if spec.get("monomorphic"):
+        # records without ALT allele (the writer skips them; the reader never sees them) 3 bases after some SNVs
+        lines = open(vcf).read().split("\n")
+        out_lines = []
+        fmt_has_ps = phased is not None
+        for ln in lines:
+            out_lines.append(ln)
+            f = ln.split("\t")
+            if len(f) > 9 and not ln.startswith("#") and len(f[3]) == 1 and len(f[4]) == 1 and rng.random() < 0.4:
+                pos0 = int(f[1]) - 1 + 3
+                call = "/".join(["0"] * k) + (":." if fmt_has_ps else "") + ":5"
+                out_lines.append("\t".join([f[0], str(pos0 + 1), ".", sc.ref[f[0]][pos0], ".", ".", "PASS", "NS=2", f[8]]
+                                           + [call] * len(sc.samples)))
+        open(vcf, "w").write("\n".join(out_lines))
     if not reads:
         reads = synth.simulate_poly_reads(rng, sc, sc.samples[0], sc.chroms[0], 4)
-    synth.write_bam(sc, reads, bam)
+    single = len(sc.samples) == 1 or spec.get("only_first_sample")
+    ignore_rg = bool(spec.get("ignore_rg") and single)
+    parts = [reads]
+    if spec.get("nbams", 1) == 2 and len(reads) >= 2:
+        a = [r for i, r in enumerate(reads) if i % 3 != 0]
+        parts = [a, [r for i, r in enumerate(reads) if i % 3 == 0]]
+    bams = []
+    for bi, part in enumerate(parts):
+        bpath = os.path.join(wd, f"in{bi}.bam")
+        G.write_bam_rg(sc, part, bpath, lanes=2 if spec.get("multi_rg") else 1,
+                       read_groups=not (ignore_rg and spec.get("drop_rg")))
+        bams.append(bpath)
+    vcf_arg = vcf
+    if spec.get("gz_in"):
+        import pysam
+        vcf_arg = vcf + ".gz"
+        pysam.tabix_compress(vcf, vcf_arg, force=True)
     ref = None
     if spec["reference"]:
         ref = synth.write_fasta(sc, os.path.join(wd, "ref.fa"))
-    return sc, vcf, bam, ref, planted
+    return sc, vcf, vcf_arg, bams, ref, planted, ignore_rg
 
 
-def accessible_positions(vcf, bam, ref, ploidy, targets=None):
+def accessible_positions(vcf, bams, ref, ploidy, targets=None, chromosomes=None, ignore_rg=False, only_snvs=False,
+                         mav=True, min_overlap=2, mapq=20):
     """{(chrom, sample): sorted 0-based positions of the read-covered heterozygous variants, or None if polyphase does
     not process the sample on that chromosome} - the preprocessing of run_polyphase with the real readers."""
     from whatshap.vcf import VcfReader
@@ -686,11 +758,12 @@ def accessible_positions(vcf, bam, ref, ploidy, targets=None):
     from whatshap.core import NumericSampleIds
     from copy import deepcopy
     out = {}
-    with PhasedInputReader([bam], ref, NumericSampleIds(), False, only_snvs=False, mapq_threshold=20) as pir:
-        with VcfReader(vcf, only_snvs=False, phases=True, genotype_likelihoods=False, ploidy=ploidy, mav=True) as vr:
+    with PhasedInputReader(list(bams), ref, NumericSampleIds(), ignore_rg, only_snvs=only_snvs, mapq_threshold=mapq) as pir:
+        with VcfReader(vcf, only_snvs=only_snvs, phases=True, genotype_likelihoods=False, ploidy=ploidy, mav=mav) as vr:
             for table in vr:
                 for sample in vr.samples:
-                    if targets is not None and sample not in targets:
+                    if (targets is not None and sample not in targets) or \
+                            (chromosomes is not None and table.chromosome not in chromosomes):
                         out[(table.chromosome, sample)] = None
                         continue
                     gts = table.genotypes_of(sample)
@@ -703,7 +776,7 @@ def accessible_positions(vcf, bam, ref, ploidy, targets=None):
                         continue
                     rs, _ = pir.read(table.chromosome, t.variants, sample)
                     rs.sort()
-                    rs = rs.subset([i for i, r in enumerate(rs) if len(r) >= 2])
+                    rs = rs.subset([i for i, r in enumerate(rs) if len(r) >= max(2, min_overlap)])
                     out[key] = sorted(rs.get_positions()) if len(rs) else None
     return out
 
@@ -712,26 +785,56 @@ def cli_case(ctx, spec, wd):
     """run the real CLI on the spec; returns dict with the Coq case and bookkeeping, or None after reporting a crash"""
     from .. import vcfabs
     os.makedirs(wd, exist_ok=True)
-    sc, vcf, bam, ref, planted = build_cli_inputs(spec, wd)
+    sc, vcf, vcf_arg, bams, ref, planted, ignore_rg = build_cli_inputs(spec, wd)
     out = os.path.join(wd, "out.vcf")
-    args = ["polyphase", "--ploidy", spec["k"], "-B", spec["sens"], "--threads", "1", "-o", out]
-    targets = None
+    out_mode = spec.get("out_mode", "file")
+    args = ["polyphase", "--ploidy", spec["k"], "-B", spec["sens"], "--threads", spec.get("threads", 1)]
+    if out_mode == "file":
+        args += ["-o", out]
+    elif out_mode == "gz":
+        args += ["-o", out + ".gz"]
+    targets = chromosomes = None
     if spec.get("only_first_sample") and len(sc.samples) > 1:
         targets = [sc.samples[0]]                 # the other sample is not a target: it must pass through untouched
         args += ["--sample", sc.samples[0]]
+    if spec.get("one_chromosome") and len(sc.chroms) > 1:
+        chromosomes = [sc.chroms[0]]
+        args += ["--chromosome", sc.chroms[0]]
     if spec["prephase"]:
         args.append("--use-prephasing")
     if spec.get("distrust"):
         args.append("--distrust-genotypes")
+    tag = spec.get("tag", "PS")
+    if tag != "PS":
+        args += ["--tag", tag]
+    if spec.get("haploid_sets"):
+        args.append("--include-haploid-sets")
+    if ignore_rg:
+        args.append("--ignore-read-groups")
+    if spec.get("only_snvs"):
+        args.append("--only-snvs")
+    if spec.get("no_mav"):
+        args.append("--no-mav")
+    if spec.get("min_overlap", 2) != 2:
+        args += ["--min-overlap", spec["min_overlap"]]
+    if spec.get("mapq") is not None:
+        args += ["--mapping-quality", spec["mapq"]]
     if ref:
         args += ["--reference", ref]
-    args += [vcf, bam]
+    args += [vcf_arg] + bams
     rc, so, se = util.run_cli(ctx, args, cwd=wd, timeout=900)
     rep = {"kind": "cli", "spec": spec}
     if rc != 0:
         ctx.violation("cli:crash", f"whatshap polyphase exits {rc} on generated input {spec}: {se[-400:]}", rep)
         return None
-    acc = accessible_positions(vcf, bam, ref, spec["k"], targets)
+    if out_mode == "stdout":
+        open(out, "w").write(so)
+    elif out_mode == "gz":
+        import gzip
+        open(out, "wb").write(gzip.open(out + ".gz", "rb").read())
+    acc = accessible_positions(vcf, bams, ref, spec["k"], targets, chromosomes, ignore_rg, bool(spec.get("only_snvs")),
+                               not spec.get("no_mav"), spec.get("min_overlap", 2),
+                               20 if spec.get("mapq") is None else spec["mapq"])
     fin, fout = vcfabs.parse_vcf(vcf), vcfabs.parse_vcf(out)
     it = vcfabs.Interner()
     samples_t, untouched_t, info = [], [], []
@@ -746,6 +849,13 @@ def cli_case(ctx, spec, wd):
 
             def gtl(c):
                 return [(-1 if x is None else x) for x in (c.gt or ())]
+
+            def phase_of(c):
+                """(phased?, phase set) of an output call under the tag in use"""
+                if tag == "PS":
+                    return c.phased, c.ps
+                nums = [x for x in (c.hp or ()) if isinstance(x, tuple)]
+                return (True, nums[0][1]) if nums else (False, None)
             if a is None:
                 ins = [(gtl(fin.records[i].calls[si]), fin.records[i].calls[si].phased, fin.records[i].calls[si].ps) for i in idx]
                 outs = [(gtl(fout.records[i].calls[si]), fout.records[i].calls[si].phased, fout.records[i].calls[si].ps) for i in idx]
@@ -755,8 +865,11 @@ def cli_case(ctx, spec, wd):
             obs = []
             for i in idx:
                 ci, co = fin.records[i].calls[si], fout.records[i].calls[si]
-                obs.append((fin.records[i].pos + 1, gtl(ci), ci.ps, gtl(co), co.phased, co.ps))
-                nphased += 1 if co.phased else 0
+                oph, ops = phase_of(co)
+                if tag == "HP" and (co.phased or co.ps is not None):
+                    oph, ops = True, -1            # old '|' / PS left next to the HP phasing: reported by the genotype clause
+                obs.append((fin.records[i].pos + 1, gtl(ci), ci.ps, gtl(co), oph, ops))
+                nphased += 1 if oph else 0
             ot = L(("(" + ", ".join([term(int(p)), zl(gi), optz(ips), zl(go), term(bool(ph)), optz(ps)]) + ")"
                     for p, gi, ips, go, ph, ps in obs), "obs")
             samples_t.append("(" + zl([int(p) + 1 for p in a]) + ", " + ot + ")")
@@ -767,9 +880,9 @@ def cli_case(ctx, spec, wd):
         for r in f.records:
             row = [it("chrom:" + r.chrom), r.pos, it("id:" + r.id), it("ref:" + r.ref), it("alt:" + ",".join(r.alts)),
                    it("qual:" + r.qual), it("filter:" + r.filter), it("info:" + ";".join(k + "=" + v for k, v in r.info)),
-                   it("fmt:" + ":".join(k for k in r.fmt if k != "PS"))]
+                   it("fmt:" + ":".join(k for k in r.fmt if k not in ("PS", "HP", "HS")))]
             for c in r.calls:
-                row.append(it("other:" + ";".join(k + "=" + v for k, v in c.other) + "|pq:" + str(c.pq)))
+                row.append(it("other:" + ";".join(k + "=" + v for k, v in c.other if k != "HS") + "|pq:" + str(c.pq)))
             rows.append(row)
         rows.append([it("samples:" + ",".join(f.samples))])
         return rows
